@@ -28,7 +28,8 @@ type Alt struct {
 
 // Vec is the outcome of each scheme for one request: "na" (no credentials found), "ok" (accepted, principal
 // "P-<scheme>"), "nil" (accepted with a nil principal), "rej<status>" (rejected with an error that carries that
-// status) or "plain" (rejected with a plain error).
+// status), "plain" (rejected with a plain error) or "okro" (accepted like "ok" unless the scopes required of the
+// scheme name an "adm…" scope: then rejected with 403).
 type Vec map[string]string
 
 func isReject(o string) bool { return isPlain(o) || strings.HasPrefix(o, "rej") }
@@ -43,6 +44,9 @@ func rejStatus(o string) int {
 	if isPlain(o) {
 		return 500
 	}
+	if o == "okro" {
+		return 403
+	}
 	n := 0
 	fmt.Sscanf(o, "rej%d", &n)
 	return n
@@ -53,6 +57,16 @@ func rejMessage(scheme, o string) string {
 		return "plain-" + scheme
 	}
 	return "rej-" + scheme
+}
+
+// admScope reports whether a required scope list names an "adm…" scope.
+func admScope(scopes []string) bool {
+	for _, sc := range scopes {
+		if strings.HasPrefix(sc, "adm") {
+			return true
+		}
+	}
+	return false
 }
 
 func principalOf(scheme string) string { return "P-" + scheme }
@@ -72,7 +86,7 @@ func (r altResult) key() string {
 // evalAlt evaluates the AND of one alternative in the given order. Schemes without a registered authenticator
 // are skipped (tolerance b); the first scheme that finds no credentials makes the alternative not applicable,
 // the first one that rejects makes it fail with that scheme's error.
-func evalAlt(order []string, reg map[string]bool, vec Vec) altResult {
+func evalAlt(a Alt, order []string, reg map[string]bool, vec Vec) altResult {
 	var princ []string
 	sawNil, any := false, false
 	for _, s := range order {
@@ -81,6 +95,14 @@ func evalAlt(order []string, reg map[string]bool, vec Vec) altResult {
 		}
 		any = true
 		o := vec[s]
+		if o == "okro" {
+			// a credential that is good for everything but the "adm…" scopes: what the scheme answers depends on the scopes
+			// this alternative requires of it
+			if admScope(a.Scopes[s]) {
+				return altResult{kind: "err", scheme: s}
+			}
+			o = "ok"
+		}
 		switch {
 		case o == "na":
 			return altResult{kind: "na"}
@@ -197,7 +219,7 @@ func evalOrdered(alts []Alt, orders [][]string, reg map[string]bool, vec Vec) []
 		if a.Anon {
 			continue
 		}
-		per[i] = []altResult{evalAlt(orders[i], reg, vec)}
+		per[i] = []altResult{evalAlt(a, orders[i], reg, vec)}
 	}
 	return combine(alts, per)
 }
@@ -211,7 +233,7 @@ func evalAnyOrder(alts []Alt, reg map[string]bool, vec Vec) []Outcome {
 		}
 		seen := map[string]bool{}
 		for _, p := range permutations(a.Schemes) {
-			r := evalAlt(p, reg, vec)
+			r := evalAlt(a, p, reg, vec)
 			if !seen[r.key()] {
 				seen[r.key()] = true
 				per[i] = append(per[i], r)
@@ -366,7 +388,7 @@ func vecLabels(alts []Alt, reg map[string]bool, vec Vec, authz string) (nontrivi
 		if a.Anon || len(a.Schemes) < 2 {
 			continue
 		}
-		r := evalAlt(a.Schemes, reg, vec)
+		r := evalAlt(a, a.Schemes, reg, vec)
 		if r.kind == "admit" && r.mixed {
 			mixed = true
 		}
